@@ -1,0 +1,214 @@
+//go:build verif
+
+package tiny
+
+// Contracts for govc (contract-based deductive verification, see /verif/DESIGN.md), property C04: cache/tiny is the
+// count-based copy of cache.LRUCache (every entry has size 1). Derived from cache/zz_contracts_verif.go by dropping
+// the size sums (size == number of members). Comments only; compiled only with the build tag `verif`.
+
+//@ arith int
+//@ property C04
+//@ assumption capacities are >= 0 (every entry counts 1); the eviction counter stays below 2^63
+//
+// Abstract view of an LRUCache: the member set of the list (container/list ranked-set model: smaller rank
+// = more recently used), each member e carrying the entry ent(e) = (key, value). The table maps
+// exactly the members' keys to their elements.
+//@ pure ent(e *list.Element) *entry = *entry(e.Value)
+//@ pure isent(e *list.Element) bool = tag(e.Value) == tag(any(*entry(nil))) && ent(e) != nil
+//
+//@ pure ri(c *LRUCache) bool = c.list != nil && c.table != nil && lwf(c.list) && c.capacity >= 0 && c.evictions >= 0 && c.size == c.list.lcnt && (forall k interface{} :: { has(c.table, k) } has(c.table, k) ==> c.table[k] != nil && c.list.lmem[c.table[k]] && ent(c.table[k]).key == k) && (forall e *list.Element :: { c.list.lmem[e] } c.list.lmem[e] ==> isent(e) && allocated(e) && allocated(ent(e)) && has(c.table, ent(e).key) && c.table[ent(e).key] == e) && (forall e1 *list.Element, e2 *list.Element :: { c.list.lmem[e1], c.list.lmem[e2] } c.list.lmem[e1] && c.list.lmem[e2] && e1 != e2 ==> ent(e1) != ent(e2))
+//@ pure sametable(c *LRUCache) bool = forall k interface{} :: { has(c.table, k) } has(c.table, k) == cs(has(c.table, k)) && c.table[k] == cs(c.table[k])
+//@ pure samemembers(c *LRUCache) bool = c.list.lcnt == cs(c.list.lcnt) && c.list.lmem == cs(c.list.lmem)
+//@ pure sameentries(c *LRUCache) bool = forall e *list.Element :: { cs(c.list.lmem[e]) } cs(c.list.lmem[e]) ==> e.Value == cs(e.Value) && ent(e).key == cs(ent(e).key) && ent(e).value == cs(ent(e).value)
+//@ pure sameorder(c *LRUCache) bool = forall e *list.Element :: { e.lrk } cs(c.list.lmem[e]) ==> e.lrk == cs(e.lrk)
+//@ pure unchanged(c *LRUCache) bool = c.list == cs(c.list) && c.table == cs(c.table) && sametable(c) && samemembers(c) && sameentries(c) && sameorder(c) && c.size == cs(c.size) && c.capacity == cs(c.capacity) && c.evictions == cs(c.evictions)
+//
+//
+//@ guarded LRUCache.list by LRUCache.mu
+//@ guarded LRUCache.table by LRUCache.mu
+//@ guarded LRUCache.size by LRUCache.mu
+//@ guarded LRUCache.capacity by LRUCache.mu
+//@ guarded LRUCache.evictions by LRUCache.mu
+//@ monitor LRUCache.mu
+//@   havoc entries(self.table), self.list.lmem, self.list.lcnt, list.Element.lrk, list.Element.Value, entry.key, entry.value
+//@   invariant #ri ri(self)
+//@   invariant #bound self.size <= self.capacity
+//@   assume self.evictions + self.list.lcnt + 1 < 9223372036854775807 && self.size < 4611686018427387904
+//
+//@ func LRUCache.Peek
+//@   requires !held(lru.mu)
+//@   ensures #hit ok <==> cs(has(lru.table, key))
+//@   ensures #value ok ==> v == cs(ent(lru.table[key]).value)
+//@   ensures #miss !ok ==> v == nil
+//@   ensures #frame unchanged(lru)
+//@   modifies LRUCache.list, LRUCache.table, LRUCache.size, LRUCache.capacity, LRUCache.evictions, mapsof(lru.table), list.List.lmem, list.List.lcnt, list.Element.lrk, list.Element.Value, entry.key, entry.value
+//
+//@ func LRUCache.Exist
+//@   requires !held(lru.mu)
+//@   ensures #hit result <==> cs(has(lru.table, key))
+//@   ensures #frame unchanged(lru)
+//@   modifies LRUCache.list, LRUCache.table, LRUCache.size, LRUCache.capacity, LRUCache.evictions, mapsof(lru.table), list.List.lmem, list.List.lcnt, list.Element.lrk, list.Element.Value, entry.key, entry.value
+//
+//@ func LRUCache.Get
+//@   requires !held(lru.mu)
+//@   ensures #hit ok <==> cs(has(lru.table, key))
+//@   ensures #value ok ==> v == cs(ent(lru.table[key]).value)
+//@   ensures #miss !ok ==> v == nil && sameorder(lru)
+//@   ensures #tofront ok ==> forall x *list.Element :: { lru.list.lmem[x] } lru.list.lmem[x] && x != cs(lru.table[key]) ==> cs(lru.table[key]).lrk < x.lrk && x.lrk == cs(x.lrk)
+//@   ensures #frame lru.list == cs(lru.list) && lru.table == cs(lru.table) && sametable(lru) && samemembers(lru) && sameentries(lru) && lru.size == cs(lru.size) && lru.capacity == cs(lru.capacity) && lru.evictions == cs(lru.evictions)
+//@   modifies LRUCache.list, LRUCache.table, LRUCache.size, LRUCache.capacity, LRUCache.evictions, mapsof(lru.table), list.List.lmem, list.List.lcnt, list.Element.lrk, list.Element.Value, entry.key, entry.value
+//
+//@ func LRUCache.checkCapacity
+//@   requires wheld(lru.mu) && ri(lru) && lru.evictions + lru.list.lcnt < 9223372036854775807
+//@   ensures #ri ri(lru) && lru.size <= lru.capacity
+//@   ensures #noop old(lru.size) <= lru.capacity ==> lru.list.lmem == old(lru.list.lmem) && lru.evictions == old(lru.evictions)
+//@   ensures #subset forall e *list.Element :: { lru.list.lmem[e] } lru.list.lmem[e] ==> old(lru.list.lmem[e])
+//@   ensures #lrufirst forall r *list.Element, e *list.Element :: { old(lru.list.lmem[r]), lru.list.lmem[e] } old(lru.list.lmem[r]) && !lru.list.lmem[r] && lru.list.lmem[e] ==> e.lrk < r.lrk
+//@   ensures #evictions lru.evictions == old(lru.evictions) + old(lru.list.lcnt) - lru.list.lcnt
+//@   ensures #tablesub forall k interface{} :: { has(lru.table, k) } has(lru.table, k) ==> old(has(lru.table, k)) && lru.table[k] == old(lru.table[k])
+//@   ensures #same lru.capacity == old(lru.capacity) && lru.list == old(lru.list) && lru.table == old(lru.table)
+//@   modifies lru.size, lru.evictions, entries(lru.table), lru.list.lmem, lru.list.lcnt
+//@   loop 1
+//@     invariant #ri ri(lru) && wheld(lru.mu) && lru.capacity == old(lru.capacity) && lru.list == old(lru.list) && lru.table == old(lru.table)
+//@     invariant #noop old(lru.size) <= lru.capacity ==> lru.list.lmem == old(lru.list.lmem) && lru.evictions == old(lru.evictions) && lru.size == old(lru.size)
+//@     invariant #subset forall e *list.Element :: { lru.list.lmem[e] } lru.list.lmem[e] ==> old(lru.list.lmem[e])
+//@     invariant #lrufirst forall r *list.Element, e *list.Element :: { old(lru.list.lmem[r]), lru.list.lmem[e] } old(lru.list.lmem[r]) && !lru.list.lmem[r] && lru.list.lmem[e] ==> e.lrk < r.lrk
+//@     invariant #evictions lru.evictions == old(lru.evictions) + old(lru.list.lcnt) - lru.list.lcnt && lru.list.lcnt >= 0
+//@     invariant #tablesub forall k interface{} :: { has(lru.table, k) } has(lru.table, k) ==> old(has(lru.table, k)) && lru.table[k] == old(lru.table[k])
+//
+// ---- private helpers (called with the mutex held; old() = state at the call) ----
+//@ pure headroom(c *LRUCache) bool = c.evictions + c.list.lcnt + 1 < 9223372036854775807 && c.size < 4611686018427387904
+//@ pure keptold(c *LRUCache) bool = (forall e *list.Element :: { c.list.lmem[e] } c.list.lmem[e] && old(c.list.lmem[e]) ==> e.Value == old(e.Value) && ent(e).key == old(ent(e).key)) && (forall r *list.Element, e *list.Element :: { old(c.list.lmem[r]), c.list.lmem[e] } old(c.list.lmem[r]) && !c.list.lmem[r] && c.list.lmem[e] ==> e.lrk < r.lrk)
+//
+//@ func LRUCache.addNew
+//@   requires wheld(lru.mu) && ri(lru) && headroom(lru) && !has(lru.table, key)
+//@   ensures #ri ri(lru) && lru.size <= lru.capacity && lru.capacity == old(lru.capacity) && lru.list == old(lru.list) && lru.table == old(lru.table)
+//@   ensures #new forall e *list.Element :: { lru.list.lmem[e] } lru.list.lmem[e] && !old(lru.list.lmem[e]) ==> ent(e).key == key && ent(e).value == value && (forall x *list.Element :: { lru.list.lmem[x] } lru.list.lmem[x] && x != e ==> e.lrk < x.lrk)
+//@   ensures #oldorder forall e *list.Element :: { e.lrk } old(lru.list.lmem[e]) ==> e.lrk == old(e.lrk) && ent(e).value == old(ent(e).value)
+//@   ensures #lru keptold(lru)
+//@   ensures #others forall k interface{} :: { has(lru.table, k) } has(lru.table, k) && k != key ==> old(has(lru.table, k)) && lru.table[k] == old(lru.table[k])
+//@   ensures #keptifnoeviction lru.evictions == old(lru.evictions) ==> has(lru.table, key) && lru.list.lcnt == old(lru.list.lcnt) + 1
+//@   ensures #mrulast !has(lru.table, key) ==> lru.list.lcnt == 0
+//@   modifies lru.size, lru.evictions, mapsof(lru.table), list.List.lmem, list.List.lcnt, list.Element.lrk, list.Element.Value, entry.key, entry.value
+//
+//@ func LRUCache.updateInPlace
+//@   requires wheld(lru.mu) && ri(lru) && headroom(lru) && element != nil && lru.list.lmem[element] && lru.size <= lru.capacity
+//@   ensures #noeviction lru.evictions == old(lru.evictions) && lru.size == old(lru.size) && lru.list.lmem == old(lru.list.lmem) && lru.list.lcnt == old(lru.list.lcnt)
+//@   ensures #ri ri(lru) && lru.size <= lru.capacity && lru.capacity == old(lru.capacity) && lru.list == old(lru.list) && lru.table == old(lru.table)
+//@   ensures #nonew forall e *list.Element :: { lru.list.lmem[e] } lru.list.lmem[e] ==> old(lru.list.lmem[e])
+//@   ensures #updated lru.list.lmem[element] ==> ent(element).value == value && ent(element).key == old(ent(element).key) && (forall x *list.Element :: { lru.list.lmem[x] } lru.list.lmem[x] && x != element ==> element.lrk < x.lrk)
+//@   ensures #oldorder forall e *list.Element :: { e.lrk } old(lru.list.lmem[e]) && e != element ==> e.lrk == old(e.lrk) && ent(e).value == old(ent(e).value)
+//@   ensures #others forall k interface{} :: { has(lru.table, k) } has(lru.table, k) ==> old(has(lru.table, k)) && lru.table[k] == old(lru.table[k])
+//@   ensures #mrulast !lru.list.lmem[element] ==> lru.list.lcnt == 0
+//@   ensures #lrufirst forall r *list.Element, e *list.Element :: { old(lru.list.lmem[r]), lru.list.lmem[e] } old(lru.list.lmem[r]) && !lru.list.lmem[r] && lru.list.lmem[e] && r != element && e != element ==> old(e.lrk) < old(r.lrk)
+//@   modifies lru.size, lru.evictions, entries(lru.table), lru.list.lmem, lru.list.lcnt, list.Element.lrk, entry.value
+//
+// ---- the variants that report the evicted values: same contracts plus the number of reported values ----
+//@ func LRUCache.checkCapacityAndGetRemoved
+//@   requires wheld(lru.mu) && ri(lru) && lru.evictions + lru.list.lcnt < 9223372036854775807
+//@   ensures #ri ri(lru) && lru.size <= lru.capacity
+//@   ensures #noop old(lru.size) <= lru.capacity ==> lru.list.lmem == old(lru.list.lmem) && lru.evictions == old(lru.evictions)
+//@   ensures #subset forall e *list.Element :: { lru.list.lmem[e] } lru.list.lmem[e] ==> old(lru.list.lmem[e])
+//@   ensures #lrufirst forall r *list.Element, e *list.Element :: { old(lru.list.lmem[r]), lru.list.lmem[e] } old(lru.list.lmem[r]) && !lru.list.lmem[r] && lru.list.lmem[e] ==> e.lrk < r.lrk
+//@   ensures #evictions lru.evictions == old(lru.evictions) + old(lru.list.lcnt) - lru.list.lcnt
+//@   ensures #tablesub forall k interface{} :: { has(lru.table, k) } has(lru.table, k) ==> old(has(lru.table, k)) && lru.table[k] == old(lru.table[k])
+//@   ensures #same lru.capacity == old(lru.capacity) && lru.list == old(lru.list) && lru.table == old(lru.table)
+//@   ensures #reported len(removedValueList) == lru.evictions - old(lru.evictions)
+//@   modifies lru.size, lru.evictions, entries(lru.table), lru.list.lmem, lru.list.lcnt, region($alloc)
+//@   loop 1
+//@     invariant #ri ri(lru) && wheld(lru.mu) && lru.capacity == old(lru.capacity) && lru.list == old(lru.list) && lru.table == old(lru.table)
+//@     invariant #noop old(lru.size) <= lru.capacity ==> lru.list.lmem == old(lru.list.lmem) && lru.evictions == old(lru.evictions) && lru.size == old(lru.size)
+//@     invariant #subset forall e *list.Element :: { lru.list.lmem[e] } lru.list.lmem[e] ==> old(lru.list.lmem[e])
+//@     invariant #lrufirst forall r *list.Element, e *list.Element :: { old(lru.list.lmem[r]), lru.list.lmem[e] } old(lru.list.lmem[r]) && !lru.list.lmem[r] && lru.list.lmem[e] ==> e.lrk < r.lrk
+//@     invariant #evictions lru.evictions == old(lru.evictions) + old(lru.list.lcnt) - lru.list.lcnt && lru.list.lcnt >= 0
+//@     invariant #reported len(removedValueList) == lru.evictions - old(lru.evictions) && nalloc() >= old(nalloc())
+//@     invariant #tablesub forall k interface{} :: { has(lru.table, k) } has(lru.table, k) ==> old(has(lru.table, k)) && lru.table[k] == old(lru.table[k])
+//
+//@ func LRUCache.addNewAndGetRemoved
+//@   requires wheld(lru.mu) && ri(lru) && headroom(lru) && !has(lru.table, key)
+//@   ensures #ri ri(lru) && lru.size <= lru.capacity && lru.capacity == old(lru.capacity) && lru.list == old(lru.list) && lru.table == old(lru.table)
+//@   ensures #new forall e *list.Element :: { lru.list.lmem[e] } lru.list.lmem[e] && !old(lru.list.lmem[e]) ==> ent(e).key == key && ent(e).value == value && (forall x *list.Element :: { lru.list.lmem[x] } lru.list.lmem[x] && x != e ==> e.lrk < x.lrk)
+//@   ensures #oldorder forall e *list.Element :: { e.lrk } old(lru.list.lmem[e]) ==> e.lrk == old(e.lrk) && ent(e).value == old(ent(e).value)
+//@   ensures #lru keptold(lru)
+//@   ensures #others forall k interface{} :: { has(lru.table, k) } has(lru.table, k) && k != key ==> old(has(lru.table, k)) && lru.table[k] == old(lru.table[k])
+//@   ensures #keptifnoeviction lru.evictions == old(lru.evictions) ==> has(lru.table, key) && lru.list.lcnt == old(lru.list.lcnt) + 1
+//@   ensures #mrulast !has(lru.table, key) ==> lru.list.lcnt == 0
+//@   ensures #reported len(result) == lru.evictions - old(lru.evictions)
+//@   modifies region($alloc), lru.size, lru.evictions, mapsof(lru.table), list.List.lmem, list.List.lcnt, list.Element.lrk, list.Element.Value, entry.key, entry.value
+//
+//
+// ---- public operations ----
+//@ func LRUCache.Set
+//@   requires !held(lru.mu)
+//@   ensures #stored has(lru.table, key) ==> ent(lru.table[key]).value == value && (forall x *list.Element :: { lru.list.lmem[x] } lru.list.lmem[x] && x != lru.table[key] ==> lru.table[key].lrk < x.lrk)
+//@   ensures #others forall k interface{} :: { has(lru.table, k) } has(lru.table, k) && k != key ==> cs(has(lru.table, k)) && lru.table[k] == cs(lru.table[k]) && ent(lru.table[k]).value == cs(ent(lru.table[k]).value)
+//@   ensures #order forall e *list.Element :: { e.lrk } cs(lru.list.lmem[e]) && lru.list.lmem[e] && e != lru.table[key] ==> e.lrk == cs(e.lrk)
+//@   ensures #capacity lru.capacity == cs(lru.capacity)
+//@   ensures #mrulast !has(lru.table, key) ==> lru.list.lcnt == 0
+//@   ensures #lrufirst forall r *list.Element, e *list.Element :: { cs(lru.list.lmem[r]), lru.list.lmem[e] } cs(lru.list.lmem[r]) && !lru.list.lmem[r] && lru.list.lmem[e] && cs(lru.list.lmem[e]) && r != cs(lru.table[key]) && e != cs(lru.table[key]) ==> cs(e.lrk) < cs(r.lrk)
+//@   modifies LRUCache.list, LRUCache.table, LRUCache.size, LRUCache.capacity, LRUCache.evictions, mapsof(lru.table), list.List.lmem, list.List.lcnt, list.Element.lrk, list.Element.Value, entry.key, entry.value
+//
+//@ func LRUCache.SetAndGetRemoved
+//@   requires !held(lru.mu)
+//@   ensures #stored has(lru.table, key) ==> ent(lru.table[key]).value == value && (forall x *list.Element :: { lru.list.lmem[x] } lru.list.lmem[x] && x != lru.table[key] ==> lru.table[key].lrk < x.lrk)
+//@   ensures #others forall k interface{} :: { has(lru.table, k) } has(lru.table, k) && k != key ==> cs(has(lru.table, k)) && lru.table[k] == cs(lru.table[k]) && ent(lru.table[k]).value == cs(ent(lru.table[k]).value)
+//@   ensures #order forall e *list.Element :: { e.lrk } cs(lru.list.lmem[e]) && lru.list.lmem[e] && e != lru.table[key] ==> e.lrk == cs(e.lrk)
+//@   ensures #capacity lru.capacity == cs(lru.capacity)
+//@   ensures #reported len(removedValueList) == lru.evictions - cs(lru.evictions)
+//@   ensures #mrulast !has(lru.table, key) ==> lru.list.lcnt == 0
+//@   ensures #lrufirst forall r *list.Element, e *list.Element :: { cs(lru.list.lmem[r]), lru.list.lmem[e] } cs(lru.list.lmem[r]) && !lru.list.lmem[r] && lru.list.lmem[e] && cs(lru.list.lmem[e]) && r != cs(lru.table[key]) && e != cs(lru.table[key]) ==> cs(e.lrk) < cs(r.lrk)
+//@   modifies region($alloc), LRUCache.list, LRUCache.table, LRUCache.size, LRUCache.capacity, LRUCache.evictions, mapsof(lru.table), list.List.lmem, list.List.lcnt, list.Element.lrk, list.Element.Value, entry.key, entry.value
+//
+//@ func LRUCache.SetIfAbsent
+//@   requires !held(lru.mu)
+//@   ensures #kept cs(has(lru.table, key)) ==> has(lru.table, key) && lru.table[key] == cs(lru.table[key]) && ent(lru.table[key]).value == cs(ent(lru.table[key]).value) && lru.list.lmem == cs(lru.list.lmem) && lru.size == cs(lru.size)
+//@   ensures #stored !cs(has(lru.table, key)) && has(lru.table, key) ==> ent(lru.table[key]).value == value
+//@   ensures #front has(lru.table, key) ==> (forall x *list.Element :: { lru.list.lmem[x] } lru.list.lmem[x] && x != lru.table[key] ==> lru.table[key].lrk < x.lrk)
+//@   ensures #others forall k interface{} :: { has(lru.table, k) } has(lru.table, k) && k != key ==> cs(has(lru.table, k)) && lru.table[k] == cs(lru.table[k])
+//@   modifies LRUCache.list, LRUCache.table, LRUCache.size, LRUCache.capacity, LRUCache.evictions, mapsof(lru.table), list.List.lmem, list.List.lcnt, list.Element.lrk, list.Element.Value, entry.key, entry.value
+//
+//@ func LRUCache.Delete
+//@   requires !held(lru.mu)
+//@   ensures #existed result <==> cs(has(lru.table, key))
+//@   ensures #gone !has(lru.table, key)
+//@   ensures #others forall k interface{} :: { has(lru.table, k) } k != key ==> has(lru.table, k) == cs(has(lru.table, k)) && lru.table[k] == cs(lru.table[k])
+//@   ensures #members result ==> lru.list.lmem == store(cs(lru.list.lmem), cs(lru.table[key]), false) && lru.size == cs(lru.size) - 1
+//@   ensures #miss !result ==> lru.list.lmem == cs(lru.list.lmem) && lru.size == cs(lru.size)
+//@   ensures #order sameorder(lru) && lru.evictions == cs(lru.evictions) && lru.capacity == cs(lru.capacity)
+//@   modifies LRUCache.list, LRUCache.table, LRUCache.size, LRUCache.capacity, LRUCache.evictions, mapsof(lru.table), list.List.lmem, list.List.lcnt, list.Element.lrk, list.Element.Value, entry.key, entry.value
+//
+//@ func LRUCache.Clear
+//@   requires !held(lru.mu)
+//@   ensures #empty lru.list.lcnt == 0 && lru.size == 0 && (forall k interface{} :: { has(lru.table, k) } !has(lru.table, k)) && lru.capacity == cs(lru.capacity) && lru.evictions == cs(lru.evictions)
+//@   modifies LRUCache.list, LRUCache.table, LRUCache.size, LRUCache.capacity, LRUCache.evictions, mapsof(lru.table), list.List.lmem, list.List.lcnt, list.Element.lrk, list.Element.Value, entry.key, entry.value
+//
+//@ func LRUCache.SetCapacity
+//@   requires !held(lru.mu) && capacity >= 0
+//@   ensures #cap lru.capacity == capacity && lru.size <= capacity
+//@   ensures #subset forall e *list.Element :: { lru.list.lmem[e] } lru.list.lmem[e] ==> cs(lru.list.lmem[e]) && e.lrk == cs(e.lrk)
+//@   ensures #lrufirst forall r *list.Element, e *list.Element :: { cs(lru.list.lmem[r]), lru.list.lmem[e] } cs(lru.list.lmem[r]) && !lru.list.lmem[r] && lru.list.lmem[e] ==> e.lrk < r.lrk
+//@   ensures #noop cs(lru.size) <= capacity ==> lru.list.lmem == cs(lru.list.lmem) && lru.evictions == cs(lru.evictions)
+//@   modifies LRUCache.list, LRUCache.table, LRUCache.size, LRUCache.capacity, LRUCache.evictions, mapsof(lru.table), list.List.lmem, list.List.lcnt, list.Element.lrk, list.Element.Value, entry.key, entry.value
+//
+//@ func LRUCache.Length
+//@   requires !held(lru.mu)
+//@   ensures result == cs(lru.list.lcnt) && unchanged(lru)
+//@   modifies LRUCache.list, LRUCache.table, LRUCache.size, LRUCache.capacity, LRUCache.evictions, mapsof(lru.table), list.List.lmem, list.List.lcnt, list.Element.lrk, list.Element.Value, entry.key, entry.value
+//@ func LRUCache.Size
+//@   requires !held(lru.mu)
+//@   ensures result == cs(lru.size) && result == cs(lru.list.lcnt) && result <= cs(lru.capacity) && unchanged(lru)
+//@   modifies LRUCache.list, LRUCache.table, LRUCache.size, LRUCache.capacity, LRUCache.evictions, mapsof(lru.table), list.List.lmem, list.List.lcnt, list.Element.lrk, list.Element.Value, entry.key, entry.value
+//@ func LRUCache.Capacity
+//@   requires !held(lru.mu)
+//@   ensures result == cs(lru.capacity) && unchanged(lru)
+//@   modifies LRUCache.list, LRUCache.table, LRUCache.size, LRUCache.capacity, LRUCache.evictions, mapsof(lru.table), list.List.lmem, list.List.lcnt, list.Element.lrk, list.Element.Value, entry.key, entry.value
+//@ func LRUCache.Evictions
+//@   requires !held(lru.mu)
+//@   ensures result == cs(lru.evictions) && unchanged(lru)
+//@   modifies LRUCache.list, LRUCache.table, LRUCache.size, LRUCache.capacity, LRUCache.evictions, mapsof(lru.table), list.List.lmem, list.List.lcnt, list.Element.lrk, list.Element.Value, entry.key, entry.value
+//@ func LRUCache.Stats
+//@   requires !held(lru.mu)
+//@   ensures length == cs(lru.list.lcnt) && size == cs(lru.size) && capacity == cs(lru.capacity) && evictions == cs(lru.evictions) && unchanged(lru)
+//@   modifies LRUCache.list, LRUCache.table, LRUCache.size, LRUCache.capacity, LRUCache.evictions, mapsof(lru.table), list.List.lmem, list.List.lcnt, list.Element.lrk, list.Element.Value, entry.key, entry.value
+//
+// ==================== C05: TTL memory cache ====================
